@@ -109,7 +109,7 @@ def run(tier, seed, t0):
     for n, rec, nm, ordd in SCEN + (SCEN_T if tier == "thorough" else []):
         try:
             scenario(e3, n, rec, nm, ordd)
-        except sym.Unsupported as ex:
+        except _e3.ENC_ERRORS as ex:
             e3.error(nm, "MIR->SMT encoding of metrics_util::recoverable", ex)
     obs = list(e3.res.obligations)
     obs += kani.run_group("util", HARNESSES, tier, hooks=True)
